@@ -57,6 +57,7 @@ OBLIGATIONS = {
     'O10.5': {'engine': 'B', 'title': 'version edits: new version = base - deleted + added, levels >= 1 sorted and disjoint, no panic on well-formed edits', 'run': builder.o10_5_version_builder,
               'confirm': builder.o10_5_confirm, 'witness_ok': builder.o10_5_witness_ok},
     'O3.3': {'engine': 'B', 'title': 'get_live_files reports every table file of every live version (all seven levels)', 'run': builder.o3_3_live_files, 'confirm': builder.o3_3_confirm},
+    'O2.4': {'engine': 'B', 'title': 'flush: immutable memtable dropped / obsolete files removed only after table write and manifest edit succeeded; failures recorded', 'run': dbpaths.o2_4_flush_ordering, 'confirm': dbpaths.o2_4_confirm},
 }
 # Engine A obligations (Kani harnesses in /verif/harness/src/proofs.rs; runner in /verif/kani/runner.py)
 import importlib.util as _u, os as _os
@@ -68,14 +69,14 @@ for _n, (_title, _hs) in _kr.OBLIGATIONS.items():
 PROPERTIES = {
     'C07': {'obligations': ['O7.1', 'O7.2', 'O7.3', 'O7.4a', 'O7.4b', 'O7.4c', 'O3.2a', 'O3.2b', 'O10.5']},
     'C01': {'obligations': ['O1.1', 'O1.3', 'O1.4', 'O1.6', 'O1.7']},
-    'C08': {'obligations': ['O8.2', 'O8.3']},
-    'C05': {'obligations': ['O5.1', 'O6.1']},
+    'C08': {'obligations': ['O8.2', 'O8.3', 'O2.4']},
+    'C05': {'obligations': ['O5.1', 'O6.1', 'O2.4']},
     'C06': {'obligations': ['O6.1', 'O5.1']},
     'C09': {'obligations': ['O9.1', 'O10.5']},
     'C12': {'obligations': ['O12.1', 'O12.3', 'O12.4', 'O12.2']},
     'C13': {'obligations': ['O1.6', 'O4.3', 'O13.1', 'O1.1']},
     'C14': {'obligations': ['O14.1']},
-    'C02': {'obligations': ['O12.3']},
+    'C02': {'obligations': ['O12.3', 'O2.4']},
     'C15': {'obligations': ['O15.5', 'O4.3', 'O15.1', 'O15.2', 'O15.3']},
     'C16': {'obligations': ['O12.3', 'O16.2']},
     'C03': {'obligations': ['O1.6', 'O3.2a', 'O3.2b', 'O3.3']},
